@@ -292,3 +292,94 @@ pub fn replay<F: PF>(trans: impl Iterator<Item = Value>, big: bool) -> Report {
     }
     rep
 }
+
+// ---------------------------------------------------------------------------------------
+// Conformance B at full size: calls of PolyMachine actions on large polynomials and domains,
+// logged with operands and results for validation by spec/trace/Trace_Poly.tla.
+pub fn record_big<F: PF>(cfg: &str, seed: u64, n: usize, maxlog: u32, out: &mut dyn std::io::Write) -> Report {
+    use num_bigint::BigUint;
+    let mut rep = Report::default();
+    let mut rng = Rng(seed ^ 0x90_17);
+    let p = F::modulus();
+    let felem = |rng: &mut Rng| -> Value { match rng.below(10) { 0 => num_to_json(&BigUint::from(0u32), true), 1 => num_to_json(&BigUint::from(1u32), true), 2 => num_to_json(&(&p - 1u32), true), _ => num_to_json(&rng.biguint_below(&p), true) } };
+    let nonzero = |rng: &mut Rng| -> Value { num_to_json(&(rng.biguint_below(&(&p - 1u32)) + 1u32), true) };
+    // a polynomial with `len` coefficients (canonical: last one non-zero), several shapes
+    let poly = |rng: &mut Rng, len: usize| -> Value {
+        if len == 0 { return json!([]); }
+        let style = rng.below(5);
+        let mut v: Vec<Value> = (0..len).map(|i| match style { 0 => num_to_json(&BigUint::from(1u32), true), 1 => if i == 0 || i + 1 == len { num_to_json(&BigUint::from(1u32), true) } else { json!([]) },
+                                                              2 => if rng.below(4) == 0 { felem(rng) } else { json!([]) }, _ => felem(rng) }).collect();
+        v[len - 1] = nonzero(rng);
+        Value::Array(v)
+    };
+    let sizes: Vec<usize> = { let mut s = vec![0usize, 1, 2, 3, 5, 15, 16, 17, 31, 33, 63, 64, 65, 100, 127, 129, 255, 257, 300, 511, 513, 1000, 1023, 1025, 2047, 2049, 3000, 4095, 4097, 8191];
+                              s.retain(|&x| x <= (1usize << maxlog)); s };
+    let (sb, sa) = (F::SMALL_SUBGROUP_BASE.unwrap_or(0), F::SMALL_SUBGROUP_BASE_ADICITY.unwrap_or(0));
+    writeln!(out, "{}", json!({"op": "reset", "cfg": cfg, "seed": seed, "p": num_to_json(&p, true), "two_adicity": F::TWO_ADICITY, "small_base": sb, "small_adicity": sa})).unwrap();
+    let kinds: Vec<&str> = if sb != 0 { vec!["radix2", "mixed", "general", "mixed"] } else { vec!["radix2", "general"] };
+    let mut step = 0;
+    while step < n {
+        step += 1;
+        let z = nonzero(&mut rng);
+        // a domain for this step: ask the real code, through the new_domain action
+        let kind = *rng.pick(&kinds);
+        let m: usize = match rng.below(8) { 0 => rng.below(9) as usize, 1 => 1usize << rng.below(maxlog as u64 + 1), 2 => (1usize << rng.below(maxlog as u64 + 1)) + 1,
+                                            3 => (1usize << (maxlog - 1)) + 1, _ => *rng.pick(&sizes) };
+        let nd = json!({"op": "new_domain", "kind": kind, "m": m});
+        let mut got: Vec<(String, Out)> = exec_event::<F>(&nd, &[], true);
+        if got.is_empty() { continue }
+        let (via, res) = got.swap_remove(rng.below(got.len() as u64) as usize);
+        let mut line = nd.clone(); line["via"] = json!(via); line["z"] = z.clone();
+        rep.op("new_domain"); rep.evaluations += 1;
+        let dom = match res { Ok((_, r)) => { line["ret"] = if r.is_object() { r.clone() } else { json!({"n": 0}) }; r } Err(e) => { line["panic"] = json!(e); Value::Null } };
+        writeln!(out, "{}", line).unwrap();
+        if !dom.is_object() { continue }
+        let dn = dom["n"].as_u64().unwrap() as usize;
+        let mut dom = dom;
+        if rng.below(3) == 0 { dom["h"] = nonzero(&mut rng); }
+        // the operation
+        let la = match rng.below(6) { 0 => dn, 1 => dn / 4, 2 => dn / 4 + 1, 3 => dn.saturating_sub(1), 4 => *rng.pick(&sizes), _ => rng.below(dn as u64 + 1) as usize };
+        let lb = match rng.below(5) { 0 => 0, 1 => 1, 2 => rng.below(20) as usize, 3 => *rng.pick(&sizes), _ => la };
+        let pre = vec![poly(&mut rng, la.min(1 << maxlog)), poly(&mut rng, lb.min(1 << maxlog))];
+        let vecn = |rng: &mut Rng, len: usize| -> Value { Value::Array((0..len).map(|_| felem(rng)).collect()) };
+        let c = rng.below(100);
+        let flen = match rng.below(4) { 0 => dn, 1 => dn / 4, 2 => dn / 4 + 1, _ => rng.below(dn as u64 + 1) as usize };
+        let ev: Value =
+            if c < 14 { json!({"op": "fft", "dom": dom, "i": 0, "tau": [], "v": vecn(&mut rng, flen)}) }
+            else if c < 26 { json!({"op": "ifft", "dom": dom, "i": 0, "tau": [], "v": vecn(&mut rng, dn)}) }
+            else if c < 34 { json!({"op": "evaluate_over_domain", "d": 1, "dom": dom}) }
+            else if c < 42 { json!({"op": "interpolate", "d": 1, "dom": dom, "v": vecn(&mut rng, dn)}) }
+            else if c < 47 { let tau = if rng.below(4) == 0 { F::from_abs(&dom["h"], true) * F::from_abs(&dom["g"], true).pow([rng.below(dn as u64)]) } else { F::from_abs(&felem(&mut rng), true) };
+                             json!({"op": "lagrange_all", "dom": dom, "i": 0, "tau": tau.to_abs(true).unwrap(), "v": []}) }
+            else if c < 50 { json!({"op": "elements", "dom": dom, "i": 0, "tau": [], "v": []}) }
+            else if c < 53 { json!({"op": "element", "dom": dom, "i": rng.below(dn as u64 + 2), "tau": [], "v": []}) }
+            else if c < 56 { json!({"op": *rng.pick(&["vanishing_eval", "vanishing_poly", "size_inv", "gen_inv"]), "dom": dom, "i": 0, "tau": felem(&mut rng), "v": []}) }
+            else if c < 62 { json!({"op": "mul_by_vanishing_poly", "d": 1, "dom": dom}) }
+            else if c < 68 { json!({"op": "divide_by_vanishing_poly", "d": 1, "dom": dom}) }
+            else if c < 78 { json!({"op": "mul", "d": 1, "s": 2}) }
+            else if c < 84 { if pre[1].as_array().unwrap().is_empty() { continue } json!({"op": "div", "d": 1, "s": 2}) }
+            else if c < 90 { json!({"op": "evaluate", "d": 1, "s": 1, "x": felem(&mut rng)}) }
+            else if c < 94 { json!({"op": *rng.pick(&["add", "sub"]), "d": 1, "s": 2}) }
+            else if c < 97 { json!({"op": "add_scaled", "d": 1, "s": 2, "f": felem(&mut rng)}) }
+            else { json!({"op": *rng.pick(&["neg", "degree", "is_zero", "coeffs", "terms"]), "d": 1, "s": 1, "x": []}) };
+        let op = ev["op"].as_str().unwrap().to_string();
+        rep.op(&op);
+        intent(&json!({"machine": "polybig", "cfg": cfg, "seed": seed, "step": step, "event": {"op": op, "dom_n": dn, "la": la, "lb": lb}}));
+        let mut got: Vec<(String, Out)> = exec_event::<F>(&ev, &pre, true).into_iter().filter(|(_, r)| !matches!(r, Err(e) if e == "skip")).collect();
+        if got.is_empty() { continue }
+        // quotient-only forms of the division cannot be decided by a relation at one point: keep them for small operands only
+        if op == "div" && la.min(lb) > 40 { got.retain(|(_, r)| matches!(r, Ok((_, ret)) if !ret.is_null()) || r.is_err()); if got.is_empty() { continue } }
+        let (via, res) = got.swap_remove(rng.below(got.len() as u64) as usize);
+        rep.evaluations += 1;
+        let mut line = ev.clone();
+        line["via"] = json!(via); line["z"] = z; line["pre"] = Value::Array(pre.clone());
+        match res {
+            Ok((post, ret)) => { line["post"] = Value::Array(post); if !ret.is_null() { line["ret"] = ret; } rep.nontrivial.insert(format!("{op}:{step}")); }
+            Err(e) => { line["panic"] = json!(e); }
+        }
+        rep.sample(&json!({"op": op, "via": line["via"], "dom_n": dn, "la": la, "lb": lb}));
+        writeln!(out, "{}", line).unwrap();
+    }
+    rep.transitions = n as u64;
+    rep
+}
